@@ -101,13 +101,16 @@ bool time_zone::Impl::LoadTimeZone(const std::string& name, time_zone* tz) {
   // Loads are serialized, and the map is rechecked once it is our turn, so
   // that cctz_extension::zone_info_source_factory() is called only once for
   // any zone name and never concurrently (see zone_info_source.h).
+  CCTZ_VERIF_LOAD_HOOK(3, name);  // about to acquire the load lock
   std::lock_guard<std::mutex> load_lock(LoadMutex());
+  CCTZ_VERIF_LOAD_HOOK(4, name);  // load lock acquired
   {
     std::lock_guard<std::mutex> lock(TimeZoneMutex());
     if (time_zone_map != nullptr) {
       TimeZoneImplByName::const_iterator itr = time_zone_map->find(name);
       if (itr != time_zone_map->end()) {
         *tz = time_zone(itr->second);
+        CCTZ_VERIF_LOAD_HOOK(7, name);  // loaded meanwhile (both locks held)
         return itr->second != utc_impl;
       }
     }
